@@ -274,6 +274,9 @@ def gen_definition(rng, tzid, allow_inconsistent=False):
             era1, m = _dst_pair(rng, std, delta, y0, y1, names, True)
             meta.update(m)
             names2 = (tag + "S2", tag + "D2") if with_names else (None, None)
+            if with_names and rng.random() < 0.4:
+                names2 = names      # the zone changed its rules (maybe its DST offset) but kept its abbreviations
+                meta["same_names"] = True
             era2, _ = _dst_pair(rng, std, rng.choice(DELTAS), y1 + 3, None, names2, False)
             obs = era1 + era2
             meta["eras"] = "pair+pair"
@@ -282,6 +285,9 @@ def gen_definition(rng, tzid, allow_inconsistent=False):
             std2 = std + rng.choice([60, -60, 30, -30])
             y2 = rng.randint(1972, 2000)
             names2 = (tag + "S2", tag + "D2") if with_names else (None, None)
+            if with_names and rng.random() < 0.4:
+                names2 = names      # the standard offset changed, the abbreviation did not
+                meta["same_names"] = True
             shift = {"kind": "STANDARD", "dtstart": [y2, rng.randint(1, 12), rng.randint(1, 28), 0, 0, 0],
                      "from": std, "to": std2, "name": names2[0], "rrule": None, "rdates": []}
             era2, _ = _dst_pair(rng, std2, rng.choice(DELTAS), y2 + 1, None, names2, False)
